@@ -982,6 +982,10 @@ class World:
             elif op == 'writeNew':
                 # entity interface: a new context state (fresh handle, or the handle of a state of ANOTHER descriptor)
                 _, dh, h, n = call
+                if h in mgr._state_updates:  # noqa: SLF001
+                    # write_entity REPLACES what the transaction already holds for this handle (mk_context_state refuses);
+                    # the model has no call with that meaning, so the generator does not go there
+                    return
                 d = m.descriptions.handle.get_one(dh, allow_none=True)
                 held = self.stale_entities.get(dh)
                 if d is None and held is not None and held.is_multi_state:
